@@ -1,6 +1,9 @@
 package sim
 
-import "strconv"
+import (
+	"strconv"
+	"strings"
+)
 
 // genDbPlan: C14 - several connections, several databases, flushes and
 // per-connection session state; clients take turns so the model is exact.
@@ -56,6 +59,14 @@ func genDbPlan(seed uint64, thorough bool) *Plan {
 					// a queued SELECT takes effect when EXEC runs it: the commands
 					// after it (and after EXEC) work on the new database
 					add("SELECT", dbs[g.r.IntN(len(dbs))])
+					if g.chance(3) {
+						// ... and commands that look at other databases from there
+						add(g.pick("FLUSHALL", "CLIENT INFO", "CLIENT LIST", "DBSIZE"))
+						last := items[len(items)-1]
+						if f := strings.Fields(string(last.Args[0])); len(f) == 2 {
+							items[len(items)-1] = cmdItem(f[0], f[1])
+						}
+					}
 				}
 				add(g.concCmd(tk)...)
 				if g.chance(2) {
@@ -65,7 +76,14 @@ func genDbPlan(seed uint64, thorough bool) *Plan {
 				}
 			case 14:
 				add("WATCH", g.key())
+				if g.chance(3) {
+					add("SELECT", dbs[g.r.IntN(len(dbs))])
+				}
 				add("MULTI")
+				if g.chance(3) {
+					add("SELECT", dbs[g.r.IntN(len(dbs))])
+					add("CLIENT", "INFO")
+				}
 				add("SET", g.key(), g.val())
 				add("EXEC")
 			case 15:
